@@ -2,6 +2,7 @@ import PcfgVerif.Model.OmenTrainer
 import PcfgVerif.Model.OmenProb
 import PcfgVerif.Model.OmenFiles
 import PcfgVerif.Model.OmenCount
+import PcfgVerif.Model.OmenScorerFiles
 import PcfgVerif.Drive.Omen
 /-! Driver commands for the trainer / scorer side of OMEN (C11, C18). -/
 namespace Drive.OmenTrainer
@@ -12,6 +13,8 @@ structure St where
   /-- `omen_levels_count` after the third pass, and the number of passwords read -/
   cnt : LCtr := []
   npw : Nat := 0
+  /-- the scorer's dictionaries loaded from the records of the last `of.load` -/
+  sc : Option STabs := none
 
 def parseNext : List String → Option (List (Char × Nat))
   | [] => some []
@@ -85,7 +88,10 @@ def step (st : St) : List String → St × String
   | ["ot.level", s] =>
     match parseStr s with
     | some s =>
-      (st, s!"t={showLvl (st.t.trainerLevel s)} s={showLvl (st.t.scorerLevel s)} g={showLvl (st.t.toTables.levelOf (st.t.ngram - 1) s)}")
+      let f := match st.sc with
+        | some sc => showLvl (sc.parse s)
+        | none => "na"
+      (st, s!"t={showLvl (st.t.trainerLevel s)} s={showLvl (st.t.scorerLevel s)} g={showLvl (st.t.toTables.levelOf (st.t.ngram - 1) s)} f={f}")
     | none => (st, "bad-op")
   | ["ot.keyspace", mk, ml] =>
     match mk.toNat?, ml.toNat? with
@@ -119,7 +125,8 @@ def step (st : St) : List String → St × String
         match parseNLines ipT, parseNLines cpT, lnT.mapM (·.toNat?) with
         | some ipL, some cpL, some lnL =>
           match loadIp ml ipL, loadCp ml cpL, loadLn ml ng lnL with
-          | some ip, some cp, some ln => (st, s!"ip={showRows showStr ip} ln={showRows toString ln} cp={showCp cp}")
+          | some ip, some cp, some ln =>
+            ({ st with sc := some (loadScorer ipL cpL lnL) }, s!"ip={showRows showStr ip} ln={showRows toString ln} cp={showCp cp}")
           | _, _, _ => (st, "raise")
         | _, _, _ => (st, "bad-op")
       | _ => (st, "bad-op")
